@@ -73,6 +73,16 @@ where
         }
     }
 
+    /// Marks the "ingest" processor as failed for this event.
+    ///
+    /// An operation which did not pass validation must not cause any further side-effects. The
+    /// arguments for the "log prune" processor have been derived from the (at that point still
+    /// unverified) header, so we disarm them here.
+    pub(crate) fn ingest_failed(&mut self, err: IngestError) {
+        self.ingest = ProcessorStatus::Failed(err);
+        self.log_prune_args = LogPruneArgs::Ignore;
+    }
+
     /// System-level data (append-only log, pruning coordination, etc.) of this operation.
     pub fn header(&self) -> &Header<E> {
         &self.operation.header
